@@ -189,10 +189,10 @@ class Model:
             cap = float('inf') if d.get('scap', INF) == INF else d['scap']
             if d.get('sint', -1) >= 0:
                 s = OutputPartSensor(self.dev[d['id']], [AttributeProbe('quality', None)], sensing_interval=d['sint'],
-                                     name='os%d' % d['id'], data_capacity=cap)
+                                     name='sn%d' % d['id'], data_capacity=cap)
                 made.append((s, d['id'], 0))
             if d.get('pint', 0) > 0:
-                s = PeriodicSensor(d['pint'] * TICK, [AttributeProbe('damage', self.dev[d['id']])], name='ps%d' % d['id'],
+                s = PeriodicSensor(d['pint'] * TICK, [AttributeProbe('damage', self.dev[d['id']])], name='sn%d' % d['id'],
                                    data_capacity=cap)
                 made.append((s, d['id'], 1))
         self.cms = FloorCms(self.maint, 'cms') if made else None
